@@ -4,6 +4,6 @@ CONSTANTS
   FailRateOne = TRUE
   MaxLen = 2
 SPECIFICATION Spec
-INVARIANTS EveryValidStringReachable TypeOK OutValid NoOutputUnlessDone TrialsBounded ErrIff GenerousRecipeNeverRefused OneTuplePerString
+INVARIANTS RetryNeverFavoursNorOverstates EveryValidStringReachable TypeOK OutValid NoOutputUnlessDone TrialsBounded ErrIff GenerousRecipeNeverRefused OneTuplePerString
 PROPERTIES RefinesPickValidString PanicIsTerminal RejectDiscardsCandidate RecipeNeverWritten Terminates
 CHECK_DEADLOCK FALSE
